@@ -269,7 +269,7 @@ def run(desc, ctx):
 
 
 SUBS = [
-    Sub("hungarian", run, strategy=lambda tier: matrices(tier), quick=1500, thorough=6000, workers_quick=4, case_timeout=20.0, hang="violation"),
-    Sub("hungarian_large", run, strategy=lambda tier: matrices(tier, large=True), quick=150, thorough=1500, workers_quick=2, case_timeout=20.0, hang="violation"),
+    Sub("hungarian", run, strategy=lambda tier: matrices(tier), quick=3000, thorough=6000, workers_quick=8, case_timeout=20.0, hang="violation"),
+    Sub("hungarian_large", run, strategy=lambda tier: matrices(tier, large=True), quick=300, thorough=1500, workers_quick=4, case_timeout=20.0, hang="violation"),
     Sub("tie_exhaustive", run, enumerate=tie_cases, workers_quick=2, case_timeout=20.0, hang="violation"),
 ]
